@@ -305,8 +305,9 @@ class CounterToken(Token, FileSystemEventHandler):
             # We did not find the token file... just ignore
             pass
         except Exception:
-            logger.exception("Uncaught exception in on_modified handler")
-            raise
+            # e.g. token file not fully written yet (a modified event follows):
+            # an exception here would kill the file system observer thread
+            logger.exception("Uncaught exception in on_created handler")
 
     def on_modified(self, event):
         try:
@@ -355,8 +356,8 @@ class CounterToken(Token, FileSystemEventHandler):
                             # Well, the file did not exist anymore...
                             pass
         except Exception:
+            # An exception here would kill the file system observer thread
             logger.exception("Uncaught exception in on_modified handler")
-            raise
 
     def dependency(self, count):
         """Create a token dependency"""
